@@ -778,6 +778,7 @@ type c20Tr struct {
 	bs            int
 	batchLen      int
 	flushDue      bool
+	bufM, drnM    []int // mirror of the worker buffer and of the keys taken from it
 }
 
 func (tr *c20Tr) emit(e string)    { tr.events = append(tr.events, e) }
@@ -880,6 +881,7 @@ func (tr *c20Tr) startReset(nw []c20Key) {
 	tr.batchOpen = false
 	tr.batchLen = 0
 	tr.flushDue = false
+	tr.bufM, tr.drnM = nil, nil
 }
 
 func (tr *c20Tr) onRaw(ev c20Raw) {
@@ -890,6 +892,9 @@ func (tr *c20Tr) onRaw(ev c20Raw) {
 		if !p.begun {
 			p.begun = true
 			tr.emit("EPutBegin " + c20CoqKeys(p.keys))
+			if tr.phase == "filling" {
+				tr.bufM = append(tr.bufM, c20KeyIDs(p.keys)...)
+			}
 			g := tr.snap()
 			for _, k := range p.keys {
 				g.started[k.id] = true
@@ -988,7 +993,8 @@ func (tr *c20Tr) onReset(ev c20Raw) {
 			}
 		case "commit":
 			var c []int
-			if len(tr.hasKeys) > 0 {
+			checked := len(tr.hasKeys) > 0
+			if checked {
 				c = tr.hasKeys
 				tr.branches["alt-checked"] = true
 			} else {
@@ -1002,6 +1008,13 @@ func (tr *c20Tr) onReset(ev c20Raw) {
 				tr.flushDue = false
 				tr.batchLen = 0
 				tr.branches["alt-batch-flush"] = true
+			} else {
+				// a chunk of drainBuf: the next batchSize keys taken from the buffer.  For a
+				// checked write only the Has calls are visible, which hide repeated keys once
+				// the in-call dedup works; the mirror gives the chunk as it was handed over.
+				if p := tr.takeChunk(c, checked); p != nil {
+					c = p
+				}
 			}
 			tr.emit("EAltWrite " + src + " " + tr.coqIDs(c))
 		case "query":
@@ -1126,6 +1139,61 @@ type c20ResetOut struct {
 	branches map[string]bool
 	resetErr string
 	jlen     int
+}
+
+// takeChunk finds the chunk of drained keys behind an observed alternate-slot
+// write: the longest prefix (at most batchSize keys) of the keys taken from the
+// buffer that equals the observed keys, or, for a checked write, equals them
+// once repetitions are removed; a takeBuf is assumed if needed.
+func (tr *c20Tr) takeChunk(obs []int, checked bool) []int {
+	try := func() []int {
+		n := tr.bs
+		if n > len(tr.drnM) {
+			n = len(tr.drnM)
+		}
+		for ; n >= 1; n-- {
+			p := tr.drnM[:n]
+			if (checked && c20SameOrDedup(p, obs)) || (!checked && c20SameOrDedup(p, obs) && len(p) == len(obs)) {
+				out := append([]int(nil), p...)
+				tr.drnM = tr.drnM[n:]
+				return out
+			}
+		}
+		return nil
+	}
+	if p := try(); p != nil {
+		return p
+	}
+	if len(tr.bufM) > 0 {
+		tr.drnM = append(tr.drnM, tr.bufM...)
+		tr.bufM = nil
+		return try()
+	}
+	return nil
+}
+
+// c20SameOrDedup: obs is pred, or pred with later repetitions removed
+func c20SameOrDedup(pred, obs []int) bool {
+	seen := map[int]bool{}
+	var dd []int
+	for _, k := range pred {
+		if !seen[k] {
+			seen[k] = true
+			dd = append(dd, k)
+		}
+	}
+	eq := func(a, b []int) bool {
+		if len(a) != len(b) {
+			return false
+		}
+		for i := range a {
+			if a[i] != b[i] {
+				return false
+			}
+		}
+		return true
+	}
+	return eq(pred, obs) || eq(dd, obs)
 }
 
 func c20SetIDs(m map[int]bool) []int {
